@@ -187,9 +187,10 @@ def d3_reg2_acceptance(ctx):
         flag = dpa.lit(fld("broadcast_reg2_pending"))
         b2 = calls_to(d, stable=B2)
         fs = field_stores(d, R, "broadcast_reg2_pending")
-        ok = len(b2) == 1 and len(fs) == 1 and dpa.entails(dpa.pc_block(b2[0][0]), flag) and dpa.fa.val_rvalue(fs[0][2]["rv"], (fs[0][0], fs[0][1])) == ("const", False, "bool") and \
+        ok = len(b2) == 1 and len(fs) == 1 and dpa.equivalent(dpa.pc_block(b2[0][0]), flag) and dpa.fa.val_rvalue(fs[0][2]["rv"], (fs[0][0], fs[0][1])) == ("const", False, "bool") and \
             ctx.cfg(d).dominates(b2[0][0], fs[0][0]) and not ctx.cfg(d).in_cycle(b2[0][0])
-        ctx.chk.ob("D3", "the driver emits exactly one REG2 broadcast per arming and disarms the flag", ok, "", key="D3:one-broadcast-round")
+        ctx.chk.ob("D3", "an armed broadcast is emitted by the next driver pass whatever else holds (exactly under the flag), once, and disarms the flag", ok,
+                   "PC(broadcast) = %s" % (dpa.show(dpa.pc_block(b2[0][0]))[:200] if len(b2) == 1 else "?"), key="D3:one-broadcast-round")
 
 
 def _cval(e):
